@@ -1021,7 +1021,8 @@ def stack_files(fs, stackdim, coordkeys=None):
     p2p = Pseudo2NetCDF(verbose=0)
     p2p.addDimensions(tmpf, f)
     f.createDimension(stackdim, sum(
-        [len(dims[stackdim]) for dims in dimensions]))
+        [len(dims[stackdim]) for dims in dimensions])).setunlimited(
+            tmpf.dimensions[stackdim].isunlimited())
     p2p.addGlobalProperties(tmpf, f)
     for tmpf in fs:
         for varkey, var in tmpf.variables.items():
